@@ -206,11 +206,9 @@ func (g *Gen) runOnce() {
 		}
 	}
 	// captured variables of a closure are cells: their final value is visible at exit, old() gives the entry value
-	env.fr = nil
-	if len(fn.FreeVars) > 0 {
-		env.fr = fr
-		env.preferParams = true
-	}
+	// locals are visible at exit with their final (merged) value; parameters keep their entry value
+	env.fr = fr
+	env.preferParams = true
 	for _, en := range con.Ensures {
 		// vacuity cover: the premise of an implication-shaped postcondition must be reachable
 		// (a contradiction among axioms / assumed contracts would otherwise "prove" it)
